@@ -675,11 +675,15 @@ def d2(ctx, prog, regs):
             ctx.check(verdict[0], 'C07-D2', key_w, f'{verdict[1]}: the words selection is not applied on the last (words) axis', f'{verdict[1]}: words select on the last axis', call.where())
     sw = sf.methods.get('_set_words')
     st = [s for s in ast.walk(sw.node) if isinstance(s, ast.Assign) and norm(s.targets[0]) == 'self.words']
-    ok = len(st) == 1 and norm(st[0].value).replace(' ', '') in ('wordsifwordsisnotNoneelse...', '...ifwordsisNoneelsewords')
-    rebinds = [s for s in ast.walk(sw.node) if isinstance(s, ast.Assign) and norm(s.targets[0]) == 'words']
-    ok_rb = all(isinstance(s.value, ast.Call) and last(norm(s.value.func)) in ('array', 'asarray') and norm(s.value.args[0]) == 'words' for s in rebinds)
-    ctx.check(ok and ok_rb, 'C07-D2', f'{sw.key}::words', 'the stored words selection is not the caller\'s (None meaning all words; a list may only be converted to an array)',
-              'self.words = the caller\'s selection (list -> array, None -> all)', sw.where())
+    wp_ = [p_ for p_ in sw.params if p_ != 'self'][0]
+    rebinds = [s for s in ast.walk(sw.node) if isinstance(s, ast.Assign) and norm(s.targets[0]) == wp_]
+    kinds_ = [astutil.passthrough_kind(s.value, wp_) for s in st + rebinds]
+    if len(st) != 1 or 'unknown' in kinds_:
+        ctx.undecided('C07-D2', f'{sw.key}::words', 'how the words selection is stored is not understood', sw.where())
+    else:
+        bad_ = [s for s, k_ in zip(st + rebinds, kinds_) if k_ == 'derived']
+        ctx.check(not bad_, 'C07-D2', f'{sw.key}::words', f'the stored words selection is not the caller\'s: `{norm(bad_[0])[:70] if bad_ else ""}` reorders / transforms it '
+                  f'(None meaning all words; a list may only be converted to an array)', 'self.words = the caller\'s selection (list -> array, None -> all)', sw.where())
 
 
 def run(ctx, prog):
